@@ -212,7 +212,8 @@ class FakeAioSession:
 class AsyncClientWorld:
     impl = 'async'
 
-    def __init__(self, client_kwargs=None, shared=None, session=None):
+    def __init__(self, client_kwargs=None, shared=None, session=None, legacy_disconnect=False):
+        self.legacy_disconnect = legacy_disconnect
         import engineio
         self.shared = shared
         self.clock = shared.clock if shared else vclock.VClock()
@@ -276,6 +277,16 @@ class AsyncClientWorld:
         self.client.on('connect', on_connect)
         self.client.on('message', on_message)
         self.client.on('disconnect', on_disconnect)
+        if self.legacy_disconnect:
+            # an application written for the older API: the handler takes no reason, and is registered through a pass-through
+            # decorator (logging, timing, ...) as applications do
+            async def legacy():
+                w.events.append(('disconnect', None, w.clock.now, w.nstep))
+                await run_effects('disconnect', None)
+
+            async def forwarding(*args, **kwargs):
+                return await legacy(*args, **kwargs)
+            self.client.on('disconnect', forwarding)
 
     # ---- fake transport, client side
     async def _client_request(self, method, url, headers, data, timeout):
@@ -613,7 +624,8 @@ class FakeSyncSession:
 class SyncClientWorld:
     impl = 'sync'
 
-    def __init__(self, client_kwargs=None, trace_funcs=None, shared=None, session=None, ws_connect=None):
+    def __init__(self, client_kwargs=None, trace_funcs=None, shared=None, session=None, ws_connect=None, legacy_disconnect=False):
+        self.legacy_disconnect = legacy_disconnect
         import engineio
         import engineio.client as ec
         self.shared = shared
@@ -713,6 +725,15 @@ class SyncClientWorld:
         self.client.on('connect', on_connect)
         self.client.on('message', on_message)
         self.client.on('disconnect', on_disconnect)
+        if self.legacy_disconnect:
+            def legacy():
+                w.events.append(('disconnect', None, w.clock.now, w.nstep))
+                w.sched.point('handler')
+                run_effects('disconnect', None)
+
+            def forwarding(*args, **kwargs):
+                return legacy(*args, **kwargs)
+            self.client.on('disconnect', forwarding)
 
     # ---- fake transport, client side (runs in client vthreads)
     def _client_request(self, method, url, headers, data, timeout):
